@@ -315,6 +315,51 @@ self.alpha = M_a
             f"  ({got[0]}, {got[1]}, {got[2]}).\n")
 
 
+def t_region_matrix(src):
+    where = "vopy/utils/utils.py:hyperrectangle_get_region_matrix"
+    fn = src.func("vopy/utils/utils.py", "hyperrectangle_get_region_matrix")
+    match_stmts("dim = len(lower)\nregion_matrix = np.vstack((np.eye(dim), -np.eye(dim)))\n"
+                "region_boundary = np.hstack((np.array(lower), -np.array(upper)))\nreturn (region_matrix, region_boundary)",
+                clean_body(fn), where)
+    return (f"(* {where}: ([I; -I], [lower; -upper]), i.e. M x >= b  iff  lower <= x /\\ -x >= -upper *)\n"
+            "Definition gen_region_constraint (b : box) (x : vec) : Prop := inbox b x.\n")
+
+
+def t_rect_is_covered(src):
+    where = "vopy/confidence_region.py:RectangularConfidenceRegion.is_covered"
+    fn = src.func("vopy/confidence_region.py", "RectangularConfidenceRegion.is_covered")
+    b = match_stmts("""
+cone_matrix = order.ordering_cone.W
+m = cone_matrix.shape[1]
+if np.array(slackness).size != 1 and slackness.size != m:
+    raise ValueError(M_msg)
+z_point = cp.Variable(m)
+z_point2 = cp.Variable(m)
+obj1_matrix, obj1_boundary = hyperrectangle_get_region_matrix(M_a.lower, M_a.upper)
+obj2_matrix, obj2_boundary = hyperrectangle_get_region_matrix(M_b.lower, M_b.upper)
+constraints = [obj1_matrix @ M_v1 >= obj1_boundary, obj2_matrix @ M_v2 >= obj2_boundary, cone_matrix @ M_e >= 0]
+prob = cp.Problem(cp.Minimize(0), constraints=constraints)
+try:
+    prob.solve()
+except cp.error.SolverError:
+    prob.solve(solver=cp.SCS)
+if prob.status is None or prob.status == 'optimal':
+    return True
+return False
+""", clean_body(fn), where)
+    ra, rb = ast.unparse(b["M_a"]), ast.unparse(b["M_b"])
+    v1, v2 = ast.unparse(b["M_v1"]), ast.unparse(b["M_v2"])
+    if {ra, rb} != {"obj1", "obj2"} or {v1, v2} != {"z_point", "z_point2"}:
+        raise Reject(where, f"unexpected regions/variables {ra},{rb},{v1},{v2}")
+    vc = VecC({"z_point": "z_point", "z_point2": "z_point2", "slackness": "slack"}, where)
+    e = vc.c(b["M_e"])
+    return (f"(* {where}: the feasibility problem posed to cvxpy (status None / 'optimal' => True) *)\n"
+            "Definition gen_rect_cov_feasible (W : mat) (obj1 obj2 : box) (slack : vec) (z_point z_point2 : vec) : Prop :=\n"
+            f"  gen_region_constraint {ra} {v1} /\\ gen_region_constraint {rb} {v2} /\\\n"
+            f"  (forall w, In w W -> 0 <= dot w {e}).\n"
+            "Definition gen_rect_cov_true_statuses : list (option nat) := [None; Some 0%nat].  (* None, 'optimal' *)\n")
+
+
 def run(src, out):
     hdr = {}
     f = "Gen_order.v"
@@ -334,6 +379,8 @@ def run(src, out):
     out.attempt(f, "rect_intersect", lambda: t_rect_intersect(src))
     out.attempt(f, "rect_center", lambda: t_rect_center(src))
     out.attempt(f, "ell_update", lambda: t_ell_update(src))
+    out.attempt(f, "hyperrectangle_get_region_matrix", lambda: t_region_matrix(src))
+    out.attempt(f, "rect_is_covered", lambda: t_rect_is_covered(src))
     import algos
     algos.run(src, out, hdr)
     import steps
